@@ -1916,12 +1916,14 @@ impl StorageEngine {
                     let new_val = match hash.get(&field) {
                         Some(current_bytes) => {
                             let current_str = String::from_utf8_lossy(current_bytes);
-                            match current_str.parse::<i64>() {
-                                Ok(current) => match current.checked_add(increment) {
+                            // only the canonical decimal form counts as an integer ("+5", "05" and
+                            // "-0" do not), as for INCR on a string
+                            match current_str.parse::<i64>().ok().filter(|n| n.to_string() == current_str) {
+                                Some(current) => match current.checked_add(increment) {
                                     Some(sum) => sum,
                                     None => return Err(FerrousError::Command(CommandError::IntegerOverflow)),
                                 },
-                                Err(_) => return Err(FerrousError::Command(CommandError::NotInteger)),
+                                None => return Err(FerrousError::Command(CommandError::NotInteger)),
                             }
                         }
                         None => increment,
